@@ -408,6 +408,11 @@ def call_site(ctx, site, env, builder):
     return r
 
 
+# interrupt-style terminations: every BaseException that is not an Exception (one kind per history, chosen by the case)
+INTERRUPTS = {"custom": Interrupt, "keyboard": KeyboardInterrupt, "sysexit": lambda: SystemExit(3), "genexit": GeneratorExit}
+INTERRUPT_KIND = ["custom"]
+
+
 def interp(ctx, c, env):
     while True:
         k = c["k"]
@@ -416,7 +421,7 @@ def interp(ctx, c, env):
         if k == "raise":
             raise EXC[c["ty"]]()
         if k == "interrupt":
-            raise Interrupt()
+            raise INTERRUPTS[INTERRUPT_KIND[0]]()
         if k == "in":
             v = call_site(ctx, c, env, build_input)
             env = env + [v]
@@ -608,6 +613,7 @@ def do_one_run(rec, spy, rng, run):
 
 def run_history(case):
     UNSHARE[0] = bool(case.get("unshare"))
+    INTERRUPT_KIND[0] = case.get("interrupt_kind", "custom")
     inner, cleanup = make_cassette(case.get("cassette", "memory"))
     spy = Spy(inner)
     rec = TapeRecorder(spy)
